@@ -132,6 +132,28 @@ impl<T: CurveInterpolation, U: DateRoll> CurveDF<T, U> {
     }
 
     pub fn index_value(&self, date: &NaiveDateTime) -> Result<Number, PyErr> {
+        #[cfg(rateslib_verif)]
+        if crate::verif::trace::active() {
+            use crate::verif::trace as t;
+            let r = t::suspended(|| self.index_value(date));
+            let rule = std::any::type_name::<T>();
+            let rule = [("LinearZeroRate", "linear_zero_rate"), ("LogLinear", "log_linear"), ("Linear", "linear"), ("FlatForward", "flat_forward"), ("FlatBackward", "flat_backward")]
+                .iter()
+                .find(|(k, _)| rule.contains(k))
+                .map(|(_, v)| *v);
+            if let (Some(rule), Some(ib)) = (rule, self.index_base) {
+                let v = t::suspended(|| std::panic::catch_unwind(std::panic::AssertUnwindSafe(|| self.interpolated_value(date))));
+                let i = t::suspended(|| self.node_index(date.and_utc().timestamp()));
+                if let Ok(v) = v {
+                    let rs: Result<Number, String> = match &r {
+                        Ok(n) => Ok(n.clone()),
+                        Err(e) => Err(e.to_string()),
+                    };
+                    t::curve_lookup(rule, &self.nodes, date, i, &v, Some((ib, &rs)));
+                }
+            }
+            return r;
+        }
         match self.index_base {
             None => Err(PyValueError::new_err("Can only calculate `index_value` for a Curve which has been initialised with `index_base`.")),
             Some(ib) => {
